@@ -3,6 +3,7 @@
 import json, pathlib
 V = pathlib.Path(__file__).resolve().parent.parent
 R = json.loads((V / 'seeded' / 'RESULTS.json').read_text()) if (V / 'seeded' / 'RESULTS.json').exists() else {}
+KNOWN = {k['harness'].split('::')[-1] for k in json.loads((V / 'known_findings.json').read_text()).get('open', [])}
 rows = {}
 for k, v in R.items():
     if k.count('/') != 2:
@@ -25,5 +26,5 @@ for (sid, chk), st in sorted(rows.items()):
     by = []
     for v in (q, t):
         if v and v['detected']:
-            by += [f for f in v['failing'] if f not in by]
+            by += [f for f in v['failing'] if f not in by and f not in KNOWN]
     print(f"| {sid} | {meta.get('property', '?')} | {chk} | {cell(q)} | {cell(t) if not (q and q['detected']) else '-'} | {', '.join(by[:4])} |")
